@@ -191,6 +191,20 @@ class Cache:
             self._norm_cased_files[norm_cased_filename] = None
             self._rebuilt_files.append(filename)
 
+    def cancel_building_file(self, filename):
+        """Undo a call to ``start_building_file``.
+
+        This is for when an exception prevents us from calling the
+        function that builds the file.
+
+        Arguments:
+            filename (str): The non-norm-cased filename.
+        """
+        with self._files_lock:
+            self._files.pop(filename, None)
+            self._norm_cased_files.pop(os.path.normcase(filename), None)
+            self._rebuilt_files.remove(filename)
+
     def rebuilt_files(self):
         """Return the files passed to ``start_building_file``.
 
